@@ -12,7 +12,7 @@ LEVEL = 'fault_enumeration'
 FLOORS = {
     'quick': {'distinct_nontrivial': 1200, 'fault:truncate': 1500, 'fault:bitflip-header': 250, 'fault:bitflip-usedfiles': 100, 'fault:bitflip-payload': 500,
               'fault:killed-writer': 16, 'fault:foreign-payload': 16, 'history-steps': 300, 'cache-served-confirmed': 30, 'auto-named-constructions': 60, 'auto-named-served': 8,
-              'recovered-file-valid': 1500, 'step:imported-file-edited': 16, 'step:second-imported-file-edited': 12, 'step:packaged-modules': 30, 'step:option-changed': 100, 'step:version-changed': 16,
+              'recovered-file-valid': 1500, 'step:imported-file-edited': 16, 'step:second-imported-file-edited': 12, 'step:packaged-modules': 30, 'step:opened-from-another-directory': 25, 'step:option-changed': 100, 'step:version-changed': 16,
               'step:other-python-version': 8, 'step:grammar-changed': 40, 'loader-got-past-header': 600},
     'thorough-unused': {'distinct_nontrivial': 20000, 'fault:truncate': 20000, 'fault:bitflip-payload': 3000, 'fault:killed-writer': 200, 'history-steps': 3000,
                  'exhaustive-truncation-files': 16},
@@ -141,8 +141,12 @@ class Env:
         kw = dict(parser='lalr', source_path=self.main, **opts)
         if not cache:
             kw.pop('cache_grammar', None)       # only legal together with cache
+        open_path = None
         if extra:
             kw.update(extra)
+            open_path = kw.pop('_open', None)
+        if open_path:
+            kw.pop('source_path', None)          # Lark.open derives it from the file
         if cache:
             kw['cache'] = self.cache
         before_calls = COUNTER[0]
@@ -153,7 +157,7 @@ class Env:
             before = None
         try:
             with wall_guard(60):
-                l = Lark(g, **kw)
+                l = Lark.open(open_path, **kw) if open_path else Lark(g, **kw)
         except WallTimeout:
             return ('wall',)
         except Exception as e:
@@ -526,7 +530,7 @@ def history(ctx, env, rng):
     cur, cur_extra = None, ''       # what the file on disk was last written for
     steps = []
     for i in range(rng.randint(6, 12)):
-        kind = rng.choice(['same', 'grammar', 'option', 'option', 'lib-edit', 'lib2-edit', 'version', 'unhashable', 'import-paths', 'package', 'package'])
+        kind = rng.choice(['same', 'grammar', 'option', 'option', 'lib-edit', 'lib2-edit', 'version', 'unhashable', 'import-paths', 'package', 'package', 'open-from-dir', 'open-from-dir'])
         g = G_MAIN
         opts = {}
         extra = None
@@ -545,6 +549,16 @@ def history(ctx, env, rng):
             a, _, b = libtext.partition('\0')
             libtext = a + '\0' + (LIBB2 if (b or LIBB) == LIBB else LIBB)
             env.write_lib(libtext)
+        elif kind == 'open-from-dir':
+            # the same grammar text opened (Lark.open) from another directory, where the relatively imported files differ
+            which = rng.choice(['A', 'B'])
+            d = os.path.join(env.dir, 'tree' + which)
+            os.makedirs(d, exist_ok=True)
+            for fn, tx in (('g.lark', G_MAIN), ('lib.lark', LIB if which == 'A' else LIB2), ('lib2.lark', LIBB)):
+                with open(os.path.join(d, fn), 'w') as f:
+                    f.write(tx)
+            extra, extra_key = {'_open': os.path.join(d, 'g.lark')}, ''
+            opts = {'_opened_from': which}
         elif kind == 'package':
             # the modules come from an installed package (FromPackageLoader); one of its two files was edited since
             which = rng.choice(['A', 'B', 'C'])
@@ -581,7 +595,7 @@ def history(ctx, env, rng):
             same_key = cur == key
             changed = cur is not None and not same_key
             fk = {'grammar': 'grammar-changed', 'option': 'option-changed', 'lib-edit': 'imported-file-edited', 'lib2-edit': 'second-imported-file-edited',
-                  'version': 'version-changed', 'import-paths': 'import-paths-changed', 'package': 'packaged-modules'}.get(kind)
+                  'version': 'version-changed', 'import-paths': 'import-paths-changed', 'package': 'packaged-modules', 'open-from-dir': 'opened-from-another-directory'}.get(kind)
             if fk:
                 ctx.count('step:' + fk)
             # the file on disk was written for (cur, cur_extra); lark's key cannot see `extra`
